@@ -13,7 +13,7 @@ def cfg_to_doc(cfg):
 
 
 def _lit(s):
-    return eval(s, {"__builtins__": {}, "ABSENT": ABSENT})  # our own files only
+    return eval(s, {"__builtins__": {}, "ABSENT": ABSENT, "Debris": env.Debris})  # our own files only
 
 
 def cfg_from_doc(d):
